@@ -11,7 +11,7 @@ Everything is generated from the tree inventory; nothing is hand-listed per unit
 import random
 
 from . import apisurface
-from . import usermain
+from . import addedunit, usermain
 
 
 FULL_PROBE_LIMIT = 12
@@ -52,6 +52,8 @@ def includes_multi(tree, sel, order_seed, tu):
         incs.append("au/io.hh")
     if sel.get("user_main") and tu.startswith("probe"):
         incs.append(usermain.INCLUDE_NAME)  # the user's own header, a real file next to the sources
+    if sel.get("added_unit"):
+        incs.append("au/units/%s.hh" % addedunit.STEM)
     seen = set()
     incs = [i for i in incs if not (i in seen or seen.add(i))]
     if order_seed is not None:
@@ -249,6 +251,8 @@ def body_main(tree, sel, probe_cfg):
     out.append(apisurface.calls(probe_cfg, io))
     if sel.get("user_main"):
         out += usermain.probe_lines(tree, sel["user_main"])
+    if sel.get("added_unit"):
+        out += addedunit.probe_lines()
     if probe_cfg.get("user_macros"):
         for n in tree.macro_names:
             out.append("#ifdef %s" % n)
@@ -369,4 +373,7 @@ def sources(tree, sel, probe_cfg, variant):
     src = {"probe.cc": main, "other.cc": other, "fine.cc": fine_source(sel, variant)}
     if sel.get("user_main") and variant == "multi":
         src[usermain.INCLUDE_NAME] = usermain.text(tree, sel["user_main"])
+    if sel.get("added_unit") and variant == "multi":
+        for relname, text in addedunit.FILES.items():
+            src[relname] = text
     return src
